@@ -139,6 +139,7 @@ pub fn op_short(op: &Op) -> &'static str {
         Op::Deliver { .. } => "deliver",
         Op::Restart => "restart",
         Op::MediaDownload { .. } => "media",
+        Op::MediaEncrypt { .. } => "mediaenc",
         Op::SetGroupImage { .. } => "setimage",
         Op::GroupImageDownload { .. } => "gimage",
         Op::Hostile(_) => "hostile",
